@@ -12,6 +12,12 @@ env = dict(os.environ, GOFLAGS="-mod=mod", GOPROXY="off", GOSUMDB="off")
 ROOT = os.path.dirname(os.path.dirname(os.path.abspath(__file__)))
 OUTROOT = os.environ.get("SEEDED_OUT", os.path.join(ROOT, "seeded"))
 M = os.path.join(wt, mdir)
+# confirm in a private scratch worktree (the agent's worktree may still be in use)
+src_wt = wt
+wt = "/tmp/mut/eval-%s-%d" % (mid, os.getpid())
+subprocess.run(["git", "-C", "/repo", "worktree", "add", "-q", "--detach", wt, "HEAD"], check=True)
+import atexit
+atexit.register(lambda: subprocess.run(["git", "-C", "/repo", "worktree", "remove", "--force", wt]))
 patch = os.path.join(M, "patch.diff")
 readme = open(os.path.join(M, "README.md")).read()
 
